@@ -673,6 +673,16 @@ func (db *DB) rollbackJournalSegment(ctx context.Context, r *JournalReader, dbFi
 			return fmt.Errorf("read frame(%d): %w", i, err)
 		}
 
+		// Same sanity checks as SQLite's journal playback: the record checksum
+		// does not cover the page number. Page zero or the lock page ends the
+		// journal; pages past the original database size are skipped as the
+		// database is truncated to that size afterwards.
+		if pgno == 0 || pgno == ltx.LockPgno(db.pageSize) {
+			return nil
+		} else if pgno > r.commit {
+			continue
+		}
+
 		// Write data to the database file.
 		if err := db.writeDatabasePage(dbFile, pgno, data, true); err != nil {
 			return fmt.Errorf("write to database (pgno=%d): %w", pgno, err)
